@@ -27,7 +27,7 @@ type strCase struct {
 	Sep        string
 }
 
-var strCells = []string{"X", ".", " ", "■", "□", "█", "é", "##", "  ", "X ", "■■", "a□", "", "10", "1"}
+var strCells = []string{"X", ".", " ", "■", "□", "█", "é", "##", "  ", "X ", "■■", "a□", "", "10", "1", " X", "ab", "a"}
 var strSeps = []string{"\n", "\r\n", "|", ""}
 
 func strMatrix(c strCase) (*gozxing.BitMatrix, *mmodel) {
@@ -90,8 +90,18 @@ func strOne(l *mc.Local, c strCase) {
 	}
 	// parse back where the text is unambiguous: distinct non-empty cell strings, neither a prefix of
 	// the other, no line-end characters inside them, rows separated by CR / LF
-	if c.Set == "" || c.Unset == "" || strings.HasPrefix(c.Set, c.Unset) || strings.HasPrefix(c.Unset, c.Set) || (c.Sep != "\n" && c.Sep != "\r\n") {
+	if c.Set == "" || c.Unset == "" || c.Set == c.Unset || (c.Sep != "\n" && c.Sep != "\r\n") {
 		return
+	}
+	if strings.HasPrefix(c.Set, c.Unset) || strings.HasPrefix(c.Unset, c.Set) {
+		// one cell string starts with the other (" X" / " "): the text is still demanded to parse
+		// back where every row splits into cell strings in exactly ONE way and the documented
+		// order of the parser (the set string is tried first) finds that split
+		if strings.ContainsAny(c.Set+c.Unset, "\r\n") || !prefixRowsDecodable(m, c.Set, c.Unset) {
+			return
+		}
+		class += "/one-cell-string-prefix-of-the-other"
+		l.Count("prefix_cell_parses", 1)
 	}
 	var p *gozxing.BitMatrix
 	var e error
@@ -145,4 +155,57 @@ func runStringForms() {
 			}
 		})
 	chk.Sample("BitMatrix string form", strCase{"strform", 3, 2, 0x19, -1, "■", "□", "\n"})
+}
+
+// prefixRowsDecodable: every row of m, rendered with the two cell strings, has exactly one
+// decomposition into cell strings, and trying the set string first at every position finds it.
+func prefixRowsDecodable(m *mmodel, set, unset string) bool {
+	for y := 0; y < m.h; y++ {
+		var sb strings.Builder
+		for x := 0; x < m.w; x++ {
+			if m.b[y*m.w+x] {
+				sb.WriteString(set)
+			} else {
+				sb.WriteString(unset)
+			}
+		}
+		t := sb.String()
+		ways := make([]int, len(t)+1) // decompositions of t[i:], capped at 2
+		ways[len(t)] = 1
+		for i := len(t) - 1; i >= 0; i-- {
+			for _, cell := range []string{set, unset} {
+				if strings.HasPrefix(t[i:], cell) {
+					ways[i] += ways[i+len(cell)]
+				}
+			}
+			if ways[i] > 2 {
+				ways[i] = 2
+			}
+		}
+		if ways[0] != 1 {
+			return false
+		}
+		pos, x := 0, 0
+		for pos < len(t) {
+			switch {
+			case strings.HasPrefix(t[pos:], set):
+				if x >= m.w || !m.b[y*m.w+x] {
+					return false
+				}
+				pos += len(set)
+			case strings.HasPrefix(t[pos:], unset):
+				if x >= m.w || m.b[y*m.w+x] {
+					return false
+				}
+				pos += len(unset)
+			default:
+				return false
+			}
+			x++
+		}
+		if x != m.w {
+			return false
+		}
+	}
+	return true
 }
